@@ -402,6 +402,34 @@ fn c07_ctx_new_span() {
     kani::cover!(cached.is_always());
 }
 
+/// The `Context` a filtered layer is handed in on_close carries the layer's own filter: a span that filter rejected
+/// stays invisible from inside on_close exactly as from inside on_event - per layer, whatever the other layer sees.
+#[kani::proof]
+#[kani::unwind(6)]
+#[kani::stub(std::rt::thread_cleanup, noop)]
+#[kani::stub(core::fmt::write, fmt_write_stub)]
+fn c07_ctx_close_keeps_filter() {
+    lstack!(st);
+    let (b, _, _) = setup();
+    let k: u64 = kani::any();
+    let p: u64 = kani::any();
+    kani::assume(k >= 1 && k <= N as u64 && p >= 1 && p <= N as u64);
+    RL_PROBE.store(p, Ordering::Relaxed);
+    M_CLOSE.store(1, Ordering::Relaxed);
+    let bk = if k == 1 { b[0] } else if k == 2 { b[1] } else { b[2] };
+    let bp = if p == 1 { b[0] } else if p == 2 { b[1] } else { b[2] };
+    // L2 owns filter bit 0, L1 owns filter bit 1
+    let (v1k, v2k) = (bk & 2 == 0, bk & 1 == 0);
+    let (v1p, v2p) = (bp & 2 == 0, bp & 1 == 0);
+    let closed = st.try_close(Id::from_u64(k));
+    assert!(closed);
+    assert!(RL_PROBE_SAW1.load(Ordering::Relaxed) == if v1k { v1p as u8 } else { 2 });
+    assert!(RL_PROBE_SAW2.load(Ordering::Relaxed) == if v2k { v2p as u8 } else { 2 });
+    kani::cover!(v1k && !v1p && v2p);
+    kani::cover!(v1k && v1p && k != p);
+    kani::cover!(!v1k && v2k);
+}
+
 fn vis_of(b: &[u64; N], k: u64) -> bool { if k == 1 { visible(b[0]) } else if k == 2 { visible(b[1]) } else { visible(b[2]) } }
 
 /// C06/C07: the span an event belongs to, as a layer sees it through `Context::event_span` / `event_scope`:
